@@ -11,6 +11,9 @@ re-spell a leaked placeholder: attr_list turns STX/ETX into `_`, toc's slugify d
 Domains: structured documents (core grammar + extension grammar, every stashed construct nested in every slot), soups,
 mutated corpus fragments, line documents  x  random subsets of the 18 bundled extensions  x  {xhtml, html}.
 
+Every search also evaluates ONE long document (`long_document()`, 10 020 paragraphs with a code span each, deterministic): more than
+10 000 inline nodes are stashed in a single conversion, the stash ids outgrow four digits.
+
 Known regions (narrow predicates: SHAPE of the leak in the output AND the syntactic trigger in the input; an output is
 tagged only if EVERY leaked occurrence in it is explained):
   F-C10-1  a link whose text carries inline markup, inside another link's/image's destination, title or alt
@@ -25,12 +28,16 @@ tagged only if EVERY leaked occurrence in it is explained):
            link text: STX digits ETX inside <code>; input contains backslash+backtick.
   F-C10-5  (proposed; the quantifier's "raw HTML") inline raw HTML (tag, comment, PI in running text) enclosing a link whose
            text carries inline markup (one-level `unescape` of HtmlInlineProcessor): complete inline placeholder in text;
-           input has `[` inside `<...`.
-  F-C10-6  abbr: a digits-only abbreviation is wrapped inside a placeholder: STX [wzxhzdk:] <abbr ...>digits</abbr> ETX;
-           abbr/extra enabled; input defines `*[digits]:`.
+           input has `[` inside `<...`, or -- when an inner tag is stashed first and the enclosing `<x</a>[*e*](u)>` becomes one match only
+           then -- the root cause is observed directly: HtmlInlineProcessor.unescape returned text that still holds an inline placeholder.
+  F-C10-6  abbr: an abbreviation whose key is a whole word of a placeholder is wrapped inside it: digits (stash index of `STX wzxhzdk:N ETX`,
+           code point of an escape `STX N ETX`), `:`, `:N` (`STX wzxhzdk<abbr ...>:</abbr>N ETX`; raw HTML or a fence in the document), and the
+           stem spellings `wzxhzdk`, `wzxhzdk:`, `wzxhzdk:N` (excluded by the property: the input spells the token).  Shape: a STX..ETX span that
+           is a complete raw-HTML / escape placeholder once the `<abbr>` around a key DEFINED in the input is taken out; abbr/extra enabled;
+           the definition `*[key]:` may sit anywhere (list item, quote, footnote body).
   F-C10-7  (proposed) after a stray `&#` (two-phase parse of html.parser, cf. F-C04-1/2) an end tag directly before a fenced block is
-           re-spelt from the wrong offsets and swallows the head of the fence's placeholder: a proper suffix of it that still
-           has its index and ETX (`zxhzdk:N` ETX, `N` ETX); fenced_code/extra enabled; input has `&#` ... `</tag` ... line break, fence.
+           re-spelt from the wrong offsets and swallows the head of the fence's placeholder: a proper suffix of it is left
+           (`zxhzdk:N` ETX, `N` ETX, or the ETX alone); fenced_code/extra enabled; input has `&#` ... `</tag` ... line break, fence.
   with toc enabled, copies of an F-C10-1/-5 leak of a heading in the toc div / heading id are knock-on effects of that leak.
 REPORT_QUANTIFIER_EXCLUDED: F-C10-4/-5 are regions the property's quantifier excludes; when False they are only counted.
 
@@ -100,16 +107,19 @@ _CODE = re.compile(r'(<code[^>]*>)(.*?)</code>', re.S)
 _ANYFULL = re.compile('%s[^%s%s]*%s' % (STX, STX, ETX, ETX))
 _TRUNC2 = re.compile('%s[^%s%s"<>]*(?=")' % (STX, STX, ETX))
 _AMPTAGFENCE = re.compile(r'&#(?s:.*?)</[A-Za-z][^\n]*\n[ ]*(?:```|~~~)')
-_TAILPH = re.compile('([%s]?)((?:[wzxhdk]{0,7}:)?)([0-9]+)%s' % (STX, ETX))
+_TAILPH = re.compile('([%s]?)((?:[wzxhdk]{0,7}:)?)([0-9]*)%s' % (STX, ETX))
 
 
 def _drop_headless(work):
-    """remove raw-HTML placeholders that lost their head: a proper suffix of `STX wzxhzdk:N ETX` that still has N and ETX"""
+    """remove raw-HTML placeholders that lost their head: a proper suffix of `STX wzxhzdk:N ETX` -- how much the re-spelt end tag swallows
+    depends on the stale offsets: part of the stem, the stem, or stem and index so that only the ETX is left"""
     def fix(m):
-        if m.group(1) and m.group(2) == RAW + ':':
+        if m.group(1) and m.group(2) == RAW + ':' and m.group(3):
             return m.group(0)                      # complete
         if m.group(1) and not m.group(2):
             return m.group(0)                      # an escape placeholder STX digits ETX: not this region
+        if m.group(2) and not m.group(3):
+            return m.group(0)                      # a stem without index: not a suffix of a placeholder
         if m.group(2) and not (RAW + ':').endswith(m.group(2)):
             return m.group(0)
         return ''
@@ -117,8 +127,26 @@ def _drop_headless(work):
 
 
 _BLANKWIKI = re.compile(r'\[\[ +\]\]')
-_ABBRDIG = re.compile(r'[*]\[[ ]*[0-9]+[ ]*\][ ]?:')       # the definition may sit inside a list item, quote, admonition ...
-_ABBRLEAK = re.compile('%s(?:%s:)?<abbr title="[^"]*">[0-9]+</abbr>%s' % (STX, RAW, ETX))
+# F-C10-6: the abbreviation keys that are a whole "word" (\b...\b) of a placeholder `STX wzxhzdk:N ETX` / `STX N ETX`: the index or code point
+# (digits), `:`, `:N`, and -- only reachable when the input spells the stem, which the property excludes -- `wzxhzdk`, `wzxhzdk:`, `wzxhzdk:N`.
+# The definition may sit inside a list item, quote, admonition, footnote body ...
+_ABBRKEY = re.compile(r'[*]\[[ ]*([0-9]+|:[0-9]*|%s(?::[0-9]*)?)[ ]*\][ ]?:' % RAW)
+_PHSPAN = re.compile('%s([^%s%s]*)%s' % (STX, STX, ETX, ETX))
+_ABBREL = re.compile(r'<abbr title="[^"]*">([^<]*)</abbr>')
+_RAWOREC = re.compile('(?:%s:)?[0-9]+' % RAW)
+
+
+def _drop_abbr_in_placeholder(work, text):
+    """remove every STX...ETX span that is a complete raw-HTML / escape placeholder once the `<abbr>` elements around keys DEFINED in the input
+    (of the shapes above) are taken out again; a span without `<abbr>` or with anything else in it is left alone"""
+    keys = set(_ABBRKEY.findall(text))
+
+    def fix(m):
+        inner = m.group(1)
+        if '<abbr' not in inner: return m.group(0)
+        plain = _ABBREL.sub(lambda a: a.group(1) if a.group(1) in keys else a.group(0), inner)
+        return '' if _RAWOREC.fullmatch(plain) else m.group(0)
+    return _PHSPAN.sub(fix, work)
 _FULL_INL = re.compile('%s%s:[0-9]{4}%s' % (STX, INL, ETX))
 _TRUNC = re.compile('%s[^%s"]*$' % (STX, ETX))
 _ESC = re.compile('%s[0-9]+%s' % (STX, ETX))
@@ -132,7 +160,29 @@ def _strip_toc(out):
     return out
 
 
-def classify(text, exts, out):
+def html_unescape_leaves_placeholder(text, exts, fmt='xhtml'):
+    """The root cause of F-C10-5 observed directly (used when the syntactic trigger `_RAWBR` does not see it, e.g. `<x</a>[*e*](u)>`: the inner
+    `</a>` is stashed first, then `<x ... >` is ONE inline-HTML match around the link): True iff during the conversion
+    HtmlInlineProcessor.unescape -- the one-level expansion applied to the text of an inline raw-HTML match -- returned a string that still
+    contains an inline placeholder."""
+    from markdown.inlinepatterns import HtmlInlineProcessor
+    hit = []
+    try:
+        md = markdown.Markdown(extensions=list(exts), output_format=fmt)
+        for p in md.inlinePatterns:
+            if isinstance(p, HtmlInlineProcessor):
+                def wrapped(t, orig=p.unescape):
+                    r = orig(t)
+                    if mdutil.INLINE_PLACEHOLDER_RE.search(r): hit.append(1)
+                    return r
+                p.unescape = wrapped
+        md.convert(text)
+    except Exception:
+        return False
+    return bool(hit)
+
+
+def classify(text, exts, out, fmt='xhtml'):
     """-> (finding id or None, shapes): None means at least one leaked occurrence is not explained by a known region.
     Works by elimination on the output string: each known region removes exactly the leak shapes it explains (and only if
     the input shows its syntactic trigger); whatever placeholder material is left afterwards is unexplained."""
@@ -150,8 +200,8 @@ def classify(text, exts, out):
         if w2 != work:
             note('F-C10-3', 'attr-name'); work = w2
     # F-C10-6: abbr wraps a digits-only term where it occurs INSIDE a placeholder (code point of an escape, index of the raw-HTML stash)
-    if ({'abbr', 'extra'} & exts) and _ABBRDIG.search(text):
-        w2 = _ABBRLEAK.sub('', work)
+    if ({'abbr', 'extra'} & exts) and _ABBRKEY.search(text):
+        w2 = _drop_abbr_in_placeholder(work, text)
         if w2 != work:
             note('F-C10-6', 'abbr-in-placeholder'); work = w2
     # F-C10-7: after a stray `&#` an unterminated end tag right before a fenced block swallows the head of the fence's placeholder
@@ -213,7 +263,7 @@ def classify(text, exts, out):
             return m.group(1) + body + '</code>'
         work = _CODE.sub(fix_code8, work)
     # F-C10-5: complete inline placeholders left by inline raw HTML that encloses a link
-    if _RAWBR.search(text):
+    if _RAWBR.search(text) or ('<' in text and _FULL_INL.search(work) and html_unescape_leaves_placeholder(text, exts, fmt)):
         w2 = _FULL_INL.sub('', work)
         if w2 != work:
             note('F-C10-5', 'full-in-raw-html'); work = w2
@@ -244,6 +294,10 @@ def evaluate(text, exts, fmt):
     return ('leak' if LEAK.search(out) else 'ok'), out
 
 
+def long_document(k=10020):
+    return '\n\n'.join('Entry %d is `v%d`.' % (i, i) for i in range(k))
+
+
 def gen_case(rng):
     html = rng.random() < 0.45
     ext = rng.random() < 0.7
@@ -267,8 +321,9 @@ def search(driver, rng, n):
             'ext_count': {}, 'formats': {'xhtml': 0, 'html': 0}, 'len_max': 0, 'out_a': 0, 'out_img': 0, 'out_code': 0, 'out_entity': 0, 'out_footnote': 0,
             'out_raw_tag': 0}
     cases = 0
-    for i in range(MULT * n):
-        kind, text, exts, fmt = gen_case(rng)
+    for i in range(-1, MULT * n):
+        # i == -1: ONE long document (deterministic, not from rng): more than 10 000 stashed inline nodes in one conversion (the stash ids outgrow 4 digits)
+        kind, text, exts, fmt = ('long-document', long_document(), [], 'xhtml') if i < 0 else gen_case(rng)
         status, out = evaluate(text, exts, fmt)
         if status == 'skipped':
             dist['skipped_spells_placeholder'] += 1; continue
@@ -290,16 +345,16 @@ def search(driver, rng, n):
         if '&' in out or re.search(r'<(?!/?p>)', out):
             seen.add((text, tuple(exts), fmt))
         if status == 'leak':
-            fid, shapes = classify(text, exts, out)
+            fid, shapes = classify(text, exts, out, fmt)
             if fid in ('F-C10-4', 'F-C10-5') and not REPORT_QUANTIFIER_EXCLUDED:
                 dist['excluded_region_hits'][fid] = dist['excluded_region_hits'].get(fid, 0) + 1
                 continue
             if fid: dist['known'][fid] = dist['known'].get(fid, 0) + 1
             m = LEAK.search(out)
-            viol.append({'input': text, 'config': {'extensions': exts, 'output_format': fmt, 'kind': kind, 'shapes': shapes[:6]},
+            viol.append({'input': text if kind != 'long-document' else 'long_document()', 'config': {'extensions': exts, 'output_format': fmt, 'kind': kind, 'shapes': shapes[:6]},
                          'observed': 'placeholder material %r in the output: …%s…' % (m.group(0), out[max(0, m.start() - 60):m.end() + 40]),
                          'required': 'no STX, ETX or placeholder stem (%s) in the output' % ', '.join(STEMS), 'finding': fid})
-        if len(samples) < 5 and i % max(1, MULT * n // 5) == 0:
+        if len(samples) < 5 and i >= 0 and i % max(1, MULT * n // 5) == 0:
             samples.append({'kind': kind, 'input': text[:300], 'extensions': exts, 'output_format': fmt, 'output': out[:300]})
     viol.sort(key=lambda v: (v['finding'] is not None, len(v['input'])))
     kept = []; per = {}
@@ -311,6 +366,7 @@ def search(driver, rng, n):
 
 
 def replay(witness):
+    if witness['text'] == 'long_document()': witness = dict(witness, text=long_document())
     status, out = evaluate(witness['text'], witness.get('extensions', []), witness.get('output_format', 'xhtml'))
     return status == 'leak'
 
